@@ -102,14 +102,21 @@ class SymEnv:
     def is_real(self, x):
         return isinstance(x, (SReal, float, int)) and not isinstance(x, bool)
 
-    def D(self, x, th):
-        """formal derivative w.r.t. the input named th (scalar or array)"""
+    def _map(self, f, x):
         if isinstance(x, snp.SArray):
             out = _np.empty(x.shape, dtype=object)
             for idx in _np.ndindex(x.shape):
-                out[idx] = sc.D(x._a[idx], th)
+                out[idx] = f(x._a[idx])
             return snp.SArray(out)
-        return sc.D(x, th)
+        return f(x)
+
+    def D(self, x, th):
+        """formal derivative w.r.t. the input named th (scalar or array)"""
+        return self._map(lambda e: sc.D(e, th), x)
+
+    def at_zero(self, x, th):
+        """value at th = 0"""
+        return self._map(lambda e: sc.subs_zero(e, th), x)
 
 
 _GB_CACHE = {}
@@ -362,8 +369,8 @@ class SymChecker:
     def eq(self, name, a, b, tol=1e-9, scale=None):
         """|a - b| <= tol * scale element-wise, same structure (the property's tolerance; exact zero is
         the cheapest sufficient condition and is tried first)"""
-        sa, va = flatten(a)
-        sb, vb = flatten(b)
+        sa, va = flatten(a, numeric=True)
+        sb, vb = flatten(b, numeric=True)
         if _strip(sa) != _strip(sb) or len(va) != len(vb):
             self._concrete_fail(name, 'structure differs: %s vs %s' % (sig_str(sa), sig_str(sb)))
             return
@@ -379,7 +386,7 @@ class SymChecker:
             self._prove_small(name, i, SReal.lift(x) - SReal.lift(y), bound)
 
     def zero(self, name, a, tol=1e-9, scale=None):
-        sa, va = flatten(a)
+        sa, va = flatten(a, numeric=True)
         bound = SReal.lift(tol) * (SReal.lift(scale) if scale is not None else 1)
         for i, x in enumerate(va):
             self._prove_small(name, i, SReal.lift(x), bound)
